@@ -210,9 +210,9 @@ var longDom2 = strings.Repeat("a.", 511) + "aa" // 1024 bytes
 var expandLocal = strings.Repeat("Ⱥ", 511) // 1022 bytes, lower-cases to 1533 bytes
 var expandDomain = strings.TrimSuffix(strings.Repeat("xn--wgv"+strings.Repeat("a", 56)+".", 15), ".") // 959 bytes of A-labels, > 1023 bytes as U-labels
 
-var localPool = []string{expandLocal, "\u00ad", "", "a", "A", "ß", "ǅ", "ａ", "é", "a@b", "＠", "a/b", "a b", "a'", "a‍", "\xff", long1023, long1024, "ſ", "1"}
-var domainPool = []string{expandDomain, "\u00ad", "a\u00ad", "\u200b", "", "a", "A.b", "example.com", "example.com.", "example.com..", "EXAMPLE。com", "a。", "xn--bcher-kva.example", "xn--a", "xn--", "bücher.example", "[::1]", "[::A]", "[::1", "127.0.0.1", "127.0.0.1.", "1.2.3", "a@b", "a/b", "a／b", "a＠b", "-a", "a-", "a b", "a‍b", ".", "..", "\xff", longDom, longDom2, "ß.example", "ǅ.example", "ａ.example", "[127.0.0.1]", "a_b"}
-var resPool = []string{"", "a", "A", "a/b", "a@b", "/", "@", " ", "a b", "a b", "ａ", "é", "it's<&>\"", "\xff", long1023, long1024, "‍", "ß"}
+var localPool = []string{expandLocal, "\u00ad", "", "a", "A", "a\tb", "\x1b", "ß", "ǅ", "ａ", "é", "a@b", "＠", "a/b", "a b", "a'", "a‍", "\xff", long1023, long1024, "ſ", "1"}
+var domainPool = []string{expandDomain, "\u00ad", "a\u00ad", "\u200b", "", "a", "A.b", "example.com", "example.com.", "example.com..", "EXAMPLE。com", "a。", "xn--bcher-kva.example", "xn--a", "xn--", "bücher.example", "[::1]", "[::A]", "[::1", "[fe80::1%eth0]", "[fe80::1%eth0/1]", "[fe80::1%a@b]", "127.0.0.1", "127.0.0.1.", "1.2.3", "a@b", "a/b", "a／b", "a＠b", "-a", "a-", "a b", "a‍b", ".", "..", "\xff", longDom, longDom2, "ß.example", "ǅ.example", "ａ.example", "[127.0.0.1]", "a_b"}
+var resPool = []string{"", "a", "A", "a/b", "a@b", "/", "@", " ", "a\tb", "a\nb", "a\x00", "\x7f", "a b", "a b", "ａ", "é", "it's<&>\"", "\xff", long1023, long1024, "‍", "ß"}
 
 // pairsBody: Equal on pairs of addresses agrees with the part accessors. The
 // pools are chosen so that many pairs have identical concatenated bytes with
